@@ -406,7 +406,13 @@ func (e *Evaluator) evalCaseMatch(value *Cell, exprs []Expr) (bool, map[string]*
 		case *ExprIdentifier:
 			bindings := make(map[string]*Cell)
 			ident := e.lexer.GetString(&ex.token)
-			bindings[ident] = value
+			// the name is a variable of the case: a scalar is copied into it (as
+			// into a for-in variable), arrays and objects are shared
+			bound, err := copyValue(value, &Cell{})
+			if err != nil {
+				bound = NewCell(value.Value)
+			}
+			bindings[ident] = bound
 			return true, bindings, nil
 		default:
 			return false, nil, e.error(expr.Token(), fmt.Sprintf("%s not supported in match expressions", expr))
